@@ -476,7 +476,36 @@ fn entry_hb(entries: &[Entry], b: usize, j: usize) -> bool {
     b < j && (b + 1..=j).any(|k| entries[k].seq)
 }
 
-fn exec_c09(sc: &Scenario, mode_run: bool, jseed: u64) -> Out {
+/// join every arbiter that still has its owner object (watchdog; shorter once one has hung), wait for the
+/// loop-ended guards, try a send: (joins, ended, post, hung)
+fn join_all_c09(slots: &mut [ArbSlot]) -> (Vec<&'static str>, Vec<bool>, Vec<bool>, bool) {
+    let mut joins = vec![];
+    let mut hung = false;
+    for s in slots.iter_mut() {
+        match s.arb.take() {
+            None => match s.joined {
+                Some(r) => joins.push(r),
+                None => joins.push("-"),
+            },
+            Some(a) => {
+                let r = join_watchdog(a, if hung { Duration::from_millis(500) } else { WATCHDOG });
+                hung |= r == "hang";
+                joins.push(r);
+            }
+        }
+    }
+    let mut ended = vec![];
+    for s in slots.iter() {
+        ended.push(wait_flag(&s.ended, if hung { Duration::from_millis(500) } else { WATCHDOG }));
+    }
+    let post: Vec<bool> = slots.iter().map(|s| s.handle.spawn_fn(|| {})).collect();
+    (joins, ended, post, hung)
+}
+
+/// `block`: the system is driven by `SystemRunner::block_on` (what `#[actix_rt::main]` / `#[actix_rt::test]`
+/// do) with a future that ends when the harness releases it — the arbiters are joined while it is still
+/// running — and `run_with_code` is called on the same runner afterwards.
+fn exec_c09(sc: &Scenario, mode_run: bool, block: bool, jseed: u64) -> Out {
     let n = sc.kinds.len();
     let kinds = sc.kinds.clone();
     let entries = sc.entries.clone();
@@ -507,6 +536,13 @@ fn exec_c09(sc: &Scenario, mode_run: bool, jseed: u64) -> Out {
     let (locked_tx, locked_rx) = mpsc::channel::<()>();
     let (res_tx, res_rx) = mpsc::channel::<Result<i32, String>>();
     let (release_tx, release_rx) = mpsc::channel::<()>();
+    // `block`: ends the future `block_on` runs / what `block_on` returned
+    let (unblock_tx, unblock_rx) = tokio::sync::oneshot::channel::<()>();
+    let (blockret_tx, blockret_rx) = mpsc::channel::<i32>();
+    // `block` flavours: the arbiters are created (and the entries of the system thread issued) inside the
+    // future, not in front of `block_on`; the `sys-task` entries are issued by the future itself, not by tasks
+    let inside = block && (jseed >> 5) & 1 == 1;
+    let inline_tasks = block && (jseed >> 4) & 1 == 0;
 
     // issuers that live on the system thread
     let mut sys_issuers = vec![];
@@ -527,42 +563,44 @@ fn exec_c09(sc: &Scenario, mode_run: bool, jseed: u64) -> Out {
         let _ = locked_tx.send(());
         let runner = new_system_runner(custom);
         let sys = System::current();
-        let mut slots = vec![];
-        let mut early = vec![];
         // "immediate" flavour: the first stop, when it comes from the system thread before `run`,
         // is issued in the very next statement after the last `Arbiter::new()` returned — the
         // tightest race between that arbiter's `Register` and the `Exit`
         let imm_code = match sys_issuers.first() {
-            Some((0, e, _, _)) if jseed % 3 == 0 && e.origin == Origin::SysPre && e.actions.len() == 1 => match e.actions[0] {
+            Some((0, e, _, _)) if jseed % 3 == 0 && !inside && e.origin == Origin::SysPre && e.actions.len() == 1 => match e.actions[0] {
                 Action::Stop(c) => Some(c),
                 _ => None,
             },
             _ => None,
         };
-        let mut immediate_done = false;
-        let nk = kinds2.len();
-        for (ki, k) in kinds2.iter().enumerate() {
-            jitter(&mut rng_sys);
-            // `rt=slow`: the last arbiter created in front of the stops has a slow runtime factory
-            let (slot, e) = make_slot(*k, &mut rng_sys, custom, slow && ki + 1 == nk, &mut || {
-                if let (Some(c), true) = (imm_code, ki + 1 == nk) {
-                    System::current().stop_with_code(c);
-                    immediate_done = true;
+        let mut rng_c = Rng::new(jseed ^ 0x5152);
+        let mut create = move || {
+            let mut slots = vec![];
+            let mut early = vec![];
+            let mut immediate_done = false;
+            let nk = kinds2.len();
+            for (ki, k) in kinds2.iter().enumerate() {
+                jitter(&mut rng_c);
+                // `rt=slow`: the last arbiter created in front of the stops has a slow runtime factory
+                let (slot, e) = make_slot(*k, &mut rng_c, custom, slow && ki + 1 == nk, &mut || {
+                    if let (Some(c), true) = (imm_code, ki + 1 == nk) {
+                        System::current().stop_with_code(c);
+                        immediate_done = true;
+                    }
+                });
+                if let Some(e) = e {
+                    early.push(e);
                 }
-            });
-            if let Some(e) = e {
-                early.push(e);
+                slots.push(slot);
             }
-            slots.push(slot);
-        }
-        // a scenario that creates arbiters later on keeps the id lock (shared) until it is over
-        let hold = if nlate > 0 { shared } else { drop(shared); None };
-        drop(excl);
+            (slots, early, immediate_done)
+        };
         // the tasks that will issue the `sys-task` entries are handed to the system arbiter first — before any
         // entry (one of which may stop the system arbiter) can run
         let mut pre_issuers = vec![];
+        let mut inline = vec![];
         for (i, e, gate, ack) in sys_issuers {
-            if e.origin == Origin::SysTask {
+            if e.origin == Origin::SysTask && !inline_tasks {
                 let late = late_sys.clone();
                 let mut r = Rng::new(jseed ^ (0x99 + i as u64));
                 sys.arbiter().spawn(async move {
@@ -571,40 +609,69 @@ fn exec_c09(sc: &Scenario, mode_run: bool, jseed: u64) -> Out {
                     perform(&e.actions, None, &mut r, (custom, slow), plain, &late, true);
                     let _ = ack.send(());
                 });
+            } else if e.origin == Origin::SysTask || inside {
+                inline.push((i, e, gate, ack));
             } else {
                 pre_issuers.push((i, e, gate, ack));
             }
         }
-        let _ = setup_tx.send((sys.clone(), slots, early, shifted));
+        let mut guards = Some((shared, excl));
+        let mut immediate_done = false;
+        if !inside {
+            let (slots, early, imm) = create();
+            immediate_done = imm;
+            // a scenario that creates arbiters later on keeps the id lock (shared) until it is over
+            if nlate == 0 {
+                guards = None;
+            } else if let Some(g) = guards.as_mut() {
+                g.1 = None;
+            }
+            let _ = setup_tx.send((sys.clone(), slots, early, shifted));
+        }
         for (i, e, gate, ack) in pre_issuers {
             if i == 0 && immediate_done {
                 let _ = ack.send(());
                 continue;
             }
-            match e.origin {
-                Origin::SysPre => {
-                    // blocks the system thread until the director opens the gate
-                    if gate.blocking_recv().is_err() {
-                        let _ = res_tx.send(Err("gate-dropped".into()));
-                        return;
-                    }
-                    jitter(&mut rng_sys);
-                    perform(&e.actions, None, &mut rng_sys, (custom, slow), plain, &late_sys, true);
+            // blocks the system thread until the director opens the gate
+            if gate.blocking_recv().is_err() {
+                let _ = res_tx.send(Err("gate-dropped".into()));
+                return;
+            }
+            jitter(&mut rng_sys);
+            perform(&e.actions, None, &mut rng_sys, (custom, slow), plain, &late_sys, true);
+            let _ = ack.send(());
+        }
+        let r = if block {
+            let sys2 = sys.clone();
+            let late = late_sys.clone();
+            let v = runner.block_on(async move {
+                if inside {
+                    let (slots, early, _) = create();
+                    drop(guards.take());
+                    let _ = setup_tx.send((sys2, slots, early, shifted));
+                }
+                // the entries the system thread issues from inside the future, in the order of their gates
+                for (i, e, gate, ack) in inline {
+                    let _ = gate.await;
+                    let mut r = Rng::new(jseed ^ (0x99 + i as u64));
+                    perform(&e.actions, None, &mut r, (custom, slow), plain, &late, true);
                     let _ = ack.send(());
                 }
-                _ => {}
-            }
-        }
-        let r = if mode_run {
+                let _ = unblock_rx.await;
+                4242
+            });
+            let _ = blockret_tx.send(v);
+            runner.run_with_code().map_err(|e| format!("io:{e}"))
+        } else if mode_run {
             runner.run().map(|_| 0).map_err(|e| e.to_string())
         } else {
             runner.run_with_code().map_err(|e| format!("io:{e}"))
         };
         let _ = res_tx.send(r);
-        if hold.is_some() {
+        if nlate > 0 {
             let _ = release_rx.recv_timeout(Duration::from_secs(60));
         }
-        drop(hold);
     });
 
     let mut t3 = vec![];
@@ -682,6 +749,24 @@ fn exec_c09(sc: &Scenario, mode_run: bool, jseed: u64) -> Out {
         }
     }
 
+    // `block`: every entry has been issued (or its issuer is gone) while `block_on` is still running …
+    let mut early_joins = None;
+    if block {
+        for j in 0..ne {
+            if !asked[j] {
+                asked[j] = true;
+                acked[j] = ack_rx[j].recv_timeout(WATCHDOG).is_ok();
+            }
+        }
+        // … the arbiters are joined now, and only then is the future released and `run_with_code` called
+        early_joins = Some(join_all_c09(&mut slots));
+        let _ = unblock_tx.send(());
+        match blockret_rx.recv_timeout(WATCHDOG) {
+            Ok(4242) => {}
+            Ok(v) => t3.push(("C09".into(), format!("block_on returned {v}, its future's output is 4242"))),
+            Err(_) => t3.push(("C09".into(), format!("block_on did not return within {WATCHDOG:?} after its future had become ready"))),
+        }
+    }
     let res = res_rx.recv_timeout(WATCHDOG);
     let (code_s, res_s): (String, String) = match &res {
         Err(_) => ("hang".into(), "hang".into()),
@@ -696,26 +781,10 @@ fn exec_c09(sc: &Scenario, mode_run: bool, jseed: u64) -> Out {
     };
 
     // joins / loop-ended guards / post spawns of the arbiters created before any stop
-    let mut joins = vec![];
-    let mut hung = false;
-    for s in slots.iter_mut() {
-        match s.arb.take() {
-            None => match s.joined {
-                Some(r) => joins.push(r),
-                None => joins.push("-"),
-            },
-            Some(a) => {
-                let r = join_watchdog(a, if hung { Duration::from_millis(500) } else { WATCHDOG });
-                hung |= r == "hang";
-                joins.push(r);
-            }
-        }
-    }
-    let mut ended = vec![];
-    for s in &slots {
-        ended.push(wait_flag(&s.ended, if hung { Duration::from_millis(500) } else { WATCHDOG }));
-    }
-    let post: Vec<bool> = slots.iter().map(|s| s.handle.spawn_fn(|| {})).collect();
+    let (joins, ended, post, mut hung) = match early_joins {
+        Some(x) => x,
+        None => join_all_c09(&mut slots),
+    };
 
     // ---- arbiters created by `n<kind>` actions ----
     // Did the entry run at all?  (Its ack arrives after its last action; a dropped issuer disconnects.)
@@ -833,7 +902,8 @@ fn exec_c09(sc: &Scenario, mode_run: bool, jseed: u64) -> Out {
     }
     for (k, j) in joins.iter().enumerate() {
         if *j != "-" && *j != "ok" {
-            t3.push(("C09".into(), format!("join of arbiter {k} ({:?}): {j}", kinds[k])));
+            let how = if block { " (joined while the system was being driven by block_on, after the stop had been issued)" } else { "" };
+            t3.push(("C09".into(), format!("join of arbiter {k} ({:?}): {j}{how}", kinds[k])));
         }
     }
     for (k, e) in ended.iter().enumerate() {
@@ -1931,7 +2001,7 @@ fn exec_blockon(variant: &str, pends: usize, value: i32) -> Result<String, Strin
 /// result of feeding one line to the scenario builder
 enum LineRes {
     Plain(String),
-    GoC09 { mode_run: bool, j: u64, head: String },
+    GoC09 { mode_run: bool, block: bool, j: u64, head: String },
     GoC10 { j: u64, head: String },
     Ident,
     BlockOn(String, usize, i32),
@@ -2046,9 +2116,12 @@ fn feed(sc: &mut Scenario, ws: &[&str]) -> LineRes {
             LineRes::Plain(format!("ok{ids}"))
         }
         (9, ["go", m, j]) => {
-            let mode_run = match *m {
-                "run" => true,
-                "code" => false,
+            let (mode_run, block) = match *m {
+                "run" => (true, false),
+                "code" => (false, false),
+                // driven by `block_on`, then `run_with_code`; no arbiters created by a batch (whether the
+                // controller gets to them depends on when the future is released)
+                "block" if sc.entries.iter().all(|e| e.news() == 0) => (false, true),
                 _ => return bad(),
             };
             let Some(j) = parse_prefixed(j, "j=") else { return bad() };
@@ -2056,7 +2129,7 @@ fn feed(sc: &mut Scenario, ws: &[&str]) -> LineRes {
                 return bad();
             }
             sc.done = true;
-            LineRes::GoC09 { mode_run, j: j as u64, head: format!("{m} j={j}") }
+            LineRes::GoC09 { mode_run, block, j: j as u64, head: format!("{m} j={j}") }
         }
         (10, ["host", n, mode]) => {
             let keep = match *mode {
@@ -2308,8 +2381,8 @@ fn run_case(lines: &[String]) -> CaseOut {
         let ws: Vec<&str> = line.split_whitespace().collect();
         match feed(&mut sc, &ws) {
             LineRes::Plain(r) => out.lines.push((line.clone(), r)),
-            LineRes::GoC09 { mode_run, j, head } => {
-                let o = exec_c09(&sc, mode_run, j);
+            LineRes::GoC09 { mode_run, block, j, head } => {
+                let o = exec_c09(&sc, mode_run, block, j);
                 out.lines.push((format!("observe {head} || {}", o.log), o.verdict));
                 out.t3.extend(o.t3);
             }
@@ -2721,8 +2794,56 @@ fn directed_sysarb_stop_c09(w: &mut dyn Write, rng: &mut Rng, thorough: bool) {
     }
 }
 
+/// Directed scenarios (both tiers, in front) in which the system is driven by `SystemRunner::block_on` — the
+/// entry point of `#[actix_rt::main]` / `#[actix_rt::test]` — with a future that lasts until the harness ends
+/// it: a stop issued meanwhile (from the future itself, a task on the system thread, an arbiter, a foreign
+/// thread, or queued in front of `block_on`) stops every arbiter while `block_on` is still running, and
+/// `run_with_code` on the same runner returns the first code afterwards.  `j` bits 4 / 5 choose whether the
+/// system thread's entries are issued by tasks or by the future itself, and whether the arbiters are created
+/// in front of `block_on` or inside the future.
+fn directed_block_c09(w: &mut dyn Write, rng: &mut Rng, thorough: bool) {
+    let mut n = 0;
+    let mut case = |w: &mut dyn Write, rng: &mut Rng, flags: &str, lines: &[&str], flavour: u64| {
+        writeln!(w, "case k{n} c09{flags}").unwrap();
+        n += 1;
+        for l in lines {
+            writeln!(w, "{l}").unwrap();
+        }
+        writeln!(w, "go block j={}", (rng.next() % 10_000) * 64 + flavour * 16 + rng.below(16) as u64).unwrap();
+    };
+    case(w, rng, "", &["arb running", "arb busy", "stop arb:0 7", "stop sys-task 9 seq"], 0);
+    case(w, rng, "", &["arb running", "stop sys-task 3"], 1);
+    case(w, rng, "", &["arb running", "arb dropped", "stop foreign 65536"], 2);
+    case(w, rng, "", &["arb busy", "stop sys-pre 5", "stop sys-task 6 race"], 3);
+    case(w, rng, "", &["arb running", "batch sys-task x s4", "stop foreign 1 seq"], 2);
+    case(w, rng, " rt=custom", &["arb early", "arb running", "stop sys-pre 2", "stop arb:1 8 race"], 1);
+    if thorough {
+        for flavour in 0..4u64 {
+            for kinds in [&[][..], &["running"], &["busy", "dropped"], &["done", "running", "early"], &["running", "running", "busy"]] {
+                for origin in ["sys-pre", "sys-task", "foreign", "arb:0"] {
+                    if origin == "arb:0" && (kinds.is_empty() || kinds[0] == "done") {
+                        continue;
+                    }
+                    let mut lines: Vec<String> = kinds.iter().map(|k| format!("arb {k}")).collect();
+                    let codes = distinct_codes(rng, 3, false);
+                    lines.push(format!("stop {origin} {}", codes[0]));
+                    match rng.below(4) {
+                        0 => lines.push(format!("stop foreign {} seq", codes[1])),
+                        1 => lines.push(format!("stop sys-task {} race", codes[1])),
+                        2 => lines.push(format!("batch sys-task s{} x s{} race", codes[1], codes[2])),
+                        _ => {}
+                    }
+                    let ls: Vec<&str> = lines.iter().map(|x| x.as_str()).collect();
+                    case(w, rng, if flavour == 3 { " rt=custom" } else { "" }, &ls, flavour);
+                }
+            }
+        }
+    }
+}
+
 fn gen_c09(a: &Args, w: &mut dyn Write) {
     let mut rng = Rng::new(a.seed ^ 0xC09);
+    directed_block_c09(w, &mut rng, a.tier == "thorough");
     directed_sysarb_stop_c09(w, &mut rng, a.tier == "thorough");
     directed_codes_c09(w, &mut rng, a.tier == "thorough");
     directed_slow_c09(w, &mut rng, a.tier == "thorough");
@@ -2749,7 +2870,7 @@ fn gen_c09(a: &Args, w: &mut dyn Write) {
                                         stops.push((o2, if code == 0 { 9 } else { 0 }, m));
                                     }
                                 }
-                                let mode = if (n + rep as usize) % 2 == 0 { "code" } else { "run" };
+                                let mode = if (n + rep as usize) % 5 == 4 { "block" } else if (n + rep as usize) % 2 == 0 { "code" } else { "run" };
                                 // two thirds with an arbiter's number aligned to the system id, spread evenly
                                 // (so the counters never drift far apart and shifting them stays cheap)
                                 let align = if (n + rep as usize) % 3 == 0 || na == 0 { None } else { Some((rep as usize + kc + oi) % na) };
@@ -2784,7 +2905,7 @@ fn gen_c09(a: &Args, w: &mut dyn Write) {
                 let m = if o3 == "sys-pre" && sys_task_in_front { "race" } else { ["seq", "race"][rng.below(2)] };
                 stops.push((o3, *rng.pick(&[5, -7, 0]), m));
             }
-            let mode = if rng.chance(1, 2) { "code" } else { "run" };
+            let mode = *rng.pick(&["code", "run", "code", "run", "block"]);
             let align = if na > 0 && rng.chance(1, 3) { Some(rng.below(na)) } else { None };
             write_c09(w, &format!("q{n}"), &kinds, align, &stops, mode, rng.next() % 1_000_000);
         }
@@ -2802,7 +2923,7 @@ fn gen_c09(a: &Args, w: &mut dyn Write) {
                 let nn = pattern.bytes().filter(|b| *b == b'n').count();
                 pattern.push(if rng.chance(1, 8) { 'x' } else if nn < 2 && origin != "foreign" && rng.chance(2, 5) { 'n' } else { 's' });
             }
-            let mode = if rng.chance(1, 2) { "code" } else { "run" };
+            let mode = if !pattern.contains('n') && rng.chance(1, 3) { "block" } else if rng.chance(1, 2) { "code" } else { "run" };
             let (others, custom) = (rng.below(6), rng.chance(1, 6));
             write_batch_c09(w, &format!("qb{n}"), &mut rng, &kinds, origin, &pattern, others, mode, custom);
         }
@@ -2813,6 +2934,7 @@ fn gen_c09(a: &Args, w: &mut dyn Write) {
     writeln!(w, "case bad3\narb running\nstop sys-pre 0\ngo code j=0").unwrap();
     writeln!(w, "case bad4 c09\nalign 0\narb done\nalign 1\nalign x\nalign 0\nalign 0\narb running\nstop arb:0 1\nstop foreign 1\nalign 0\ngo code j=2").unwrap();
     writeln!(w, "case bad5 c09 rt=custom\narb running\nbatch\nbatch foreign s1\nbatch sys-pre\nbatch sys-pre seq\nbatch arb:1 s1\nbatch sys-pre s1 nx\nbatch sys-pre sx\nbatch sys-pre s1 s2 s3 s4 s5 s6\nbatch sys-pre nr nr nr\nbatch sys-pre nr seq race\nbatch sys-pre nr\ngo code j=1\nbatch sys-task s1\nstop sys-task 1\nstop sys-pre 2 seq\nstop sys-pre 3 race\nstop foreign 4\ngo code j=3").unwrap();
+    writeln!(w, "case bad9 c09\narb running\nbatch sys-pre nr s1\ngo block j=1\ngo blok j=1\ngo block\ngo run j=2\ngo block j=3").unwrap();
     writeln!(w, "case bad8 c09\nbatch foreign nr s1\nbatch foreign x nr\nbatch sys-pre xx\nbatch sys-pre X\nbatch foreign x\ngo code j=9\nstop sys-task 3\ngo code j=9").unwrap();
     writeln!(w, "case bad7 c09\nstop foreign 2147483648\nstop foreign -2147483649\nstop foreign 12345678901\nstop foreign --1\nstop foreign -\nbatch sys-pre s2147483648\nstop foreign -2147483648\nstop foreign 2147483647\ngo code j=8").unwrap();
     writeln!(w, "case bad6 c09\narb running\nalign 0\nbatch sys-pre s1 nr\nbatch sys-pre s1 s-2\nbatch sys-pre s2\nstop sys-task 5\nstop sys-pre 6 race\nstop sys-pre 7\ngo run j=4").unwrap();
